@@ -80,7 +80,9 @@ items=[
 ]
 optional=[
  ("C07_mult_array_eval","StructMult.v","array_multiplier_eval","EVALUATED array multiplier, every operand and result width."),
+ ("C07_mult_karatsuba_eval","StructMult.v","karatsuba_eval","EVALUATED Karatsuba multiplier, every threshold >= 3, every width."),
  ("C07_mult_yao_eval","StructMult.v","new_multiplier_yao_eval","EVALUATED NewMultiplier (Yao: Karatsuba/array), every width."),
+ ("C07_subtractor_eval","StructHamming.v","new_subtractor_eval","EVALUATED NewSubtractor, both targets, result width <= max+1."),
  ("C07_adder_eval","StructHamming.v","new_adder_eval","EVALUATED NewAdder, both targets, every width."),
  ("C07_hamming_eval","StructHamming.v","hamming_eval","EVALUATED Hamming distance, both targets."),
 ]
